@@ -226,6 +226,22 @@ def maybeRun (cfg : Cfg) (k : K) (ans : Con) (s : St K) : St K × Res :=
         -- use the old path; "need flag that we can't use the last run"
         ({ dd := dd, searches := s.searches + 1 }, .ok false old)
 
+/-- `update_from_tree(tree, overwrite)` (reusable.py:182-218): explicitly store the entry `new`
+    of a tree; never runs the sub-optimizer.  `ow` is the *call's* `overwrite` argument
+    (default `'improved'`), not the optimizer's policy. -/
+def updateFromTree (tie : Bool) (ow : Overwrite) (k : K) (new : Con) (s : St K) : St K :=
+  let dd := s.dd.load k
+  match dd.view k with
+  | none => { s with dd := dd.set k new }
+  | some old =>
+    match ow with
+    | .no => { s with dd := dd }
+    | .yes => { s with dd := dd.set k new }
+    | .improved =>
+      if better { overwrite := .improved, cacheOnly := false, tieReplace := tie } new old then
+        { s with dd := dd.set k new }
+      else { s with dd := dd }
+
 /-- `search` (reusable.py:299-307): returns the tree.  `q` is the queried contraction,
     `ansTree` the tree the sub-optimizer builds if it runs (`self.last_opt.tree`). -/
 def searchTree (q : Net) (ansTree : Tree) : Res → Option Tree
@@ -242,6 +258,8 @@ inductive Ev (K : Type) where
   | query (k : K) (ans : Con)
   /-- a new process / optimizer object on the same directory, possibly with another policy -/
   | restart (cfg : Cfg)
+  /-- `update_from_tree(tree, overwrite=ow)` with the entry `new` of that tree -/
+  | update (ow : Overwrite) (k : K) (new : Con)
 
 structure Sys (K : Type) where
   cfg : Cfg
@@ -250,6 +268,7 @@ structure Sys (K : Type) where
 def Sys.step (y : Sys K) : Ev K → Sys K × Option Res
   | .query k ans => let r := maybeRun y.cfg k ans y.st; ({ y with st := r.1 }, some r.2)
   | .restart cfg => ({ cfg := cfg, st := { y.st with dd := y.st.dd.reload } }, none)
+  | .update ow k new => ({ y with st := updateFromTree y.cfg.tieReplace ow k new y.st }, none)
 
 def Sys.run (y : Sys K) : List (Ev K) → Sys K × List (Option Res)
   | [] => (y, [])
